@@ -36,6 +36,10 @@ func (c *Ctx) TLGObs(include func(fn *ssa.Function) bool, armed func(fn *ssa.Fun
 				ob.Armed = false
 				ob.Got += " [undecidable here: mixed with an unbounded program-supplied operand]"
 			}
+			if s.Undecided != "" {
+				ob.Armed = false
+				ob.Got += " [undecided here: " + s.Undecided + "]"
+			}
 		}
 		obs = append(obs, ob)
 	}
